@@ -621,7 +621,7 @@ fn scenario(ctx: &mut Ctx, r: &mut Rng) {
         if text.starts_with('-') {
             continue;
         }
-        let o = match git::run(&repo.path, &["rev-parse", &text]) {
+        let o = match git::run(&repo.path, &["rev-parse", "--revs-only", &text, "--"]) {
             Ok(o) => o,
             Err(e) => {
                 ctx.inconclusive(&format!("git spawn: {e}"));
@@ -709,7 +709,7 @@ pub fn run(ctx: &mut Ctx) {
          (ref name forms, full/abbreviated hex of any object kind, describe output, name@{n}, @{n}, @{-n}, :path, :n:path, :/text, missing names) followed by 0..3 of ~n ^n ^0 ^{} ^{type} ^{/regex} :path, \
          every prefix of a chain being checked too; plus 8 range forms (A..B A...B A.. ..B ^A A^@ A^! A^-n) over sides that already agree. distinct = (sorted production multiset, git outcome class)",
     );
-    ctx.assume("git 2.39.5 is the reference: `cat-file --batch-check` (same get_oid resolver as rev-parse, a sample re-checked with `rev-parse --verify`) for single objects, `rev-parse` for ranges; merge bases printed for A...B are not compared; searches by message are only generated when all commit times are distinct");
+    ctx.assume("git 2.39.5 is the reference: `cat-file --batch-check` (same get_oid resolver as rev-parse, a sample re-checked with `rev-parse --verify`) for single objects, `rev-parse --revs-only <spec> --` for ranges (the `--` keeps git from accepting a failed spec as a path); merge bases printed for A...B are not compared; searches by message are only generated when all commit times are distinct");
     let n = ctx.n(40, 1500);
     ctx.cases("repo", n, scenario);
 }
